@@ -26,9 +26,18 @@ def main():
         return 0
     payload = json.load(open(a.target))
     modname = payload.get('replay_module') or 'rac.%s' % payload['property']
-    if (payload.get('call') or {}).get('probe') == 'public-frame':
+    call_ = payload.get('call') or {}
+    if call_.get('probe') == 'public-frame':
         modname = 'rac.frame_probe'
     mod = importlib.import_module(modname)
+    if call_.get('kind') == 'frame' and call_.get('probe') != 'public-frame' and payload.get('property') in ('C01', 'C02', 'C06', 'C11', 'C16') and 'name' in call_:
+        from rac import frame_probe
+        try:
+            v = frame_probe.replay_table(call_)
+        except Exception:
+            v = dict(fails=None, detail='frame probe crashed: ' + traceback.format_exc()[-800:])
+        print(json.dumps(jsonable(v)))
+        return 0
     try:
         v = mod.replay(payload.get('call') or {})
     except Exception:
